@@ -21,6 +21,10 @@ CHECKS = {
   text="Seeded search over call histories on one long-lived simulated caller thread; every call's full result digest (text, every origin, define table, tree with offsets, or error) must equal the same call on a fresh thread against the same file-system snapshot. Sampling, not proof: evidence reports histories run, residue/address-reuse probes and fault kinds fired.",
   note="Trusts: hooks faithful (repo tests pass guard on/off); slot device decides address reuse for caller-owned texts only; library-internal RandomState unseeded; digests cover what the public API exposes.",
   tech="deterministic simulation: seeded call histories vs fresh-thread reference, simulated file system with per-call fault plan"),
+"C08": dict(cat="fault_enumeration", ref="§6 C08",
+  text="Per base scenario (valid multi-file program, repo preprocessor testcase over its directory, corpus snippet, mutated or token-soup text) the file-system fault space is enumerated: quick samples 24 fault sets per scenario, thorough executes EVERY single fault (each file x open errors, truncation at every byte offset, 12 corrupting bytes at every offset, EIO at 17 offsets, TOCTOU on probes) plus transparent-fault and string-entry controls; every Ok tree is iterated, formatted and converted node by node. Oracle: no panic / process death, and the Err shape the statement prescribes for missing and non-UTF-8 files, derived from the simulated file system's own event log.",
+  note="Trusts: hooks faithful; Vfs error semantics; allocation failure and signals not modelled; step-budget-exhausted executions are counted, not judged; nesting > 64 out of claim.",
+  tech="deterministic simulation: fault enumeration on a simulated file system (open/read/probe faults, truncation and corruption at every offset), panic and crash containment, error-shape oracle from the VFS event log"),
 "C09": dict(cat="exploration", ref="§6 C09",
   text="The structured recursion family (8 mechanisms x cycles of length 1..8 and chains of depth 1..80) is enumerated completely in both tiers, with sampled decorations and caller stack sizes 2/8/256 MiB; bounded progress is decided by step and open budgets, stack exhaustion by the death of the worker process. Exhaustive over the family, sampling over decorations.",
   note="Trusts: hooks faithful; FileScope/MacroScope probes report true nesting; a 2 MiB caller stack is the smallest in the claim; exponential fan-out chains are outside the family.",
@@ -29,6 +33,10 @@ CHECKS = {
   text="Include graphs in a line language over the simulated file system, each named file present as distinct physical copies in none/one/several of cwd and the search directories, with faults on the resolution conversation (TOCTOU vanish/appear on exists, ENOENT/EACCES on open, non-UTF-8 copy). An executable reference model independent of the repository interprets the language and conducts its own exists/open/read conversation with a twin file system; operation logs, output tokens, returned define table and error value must all agree. Sampling over graphs; per graph every include edge is exercised.",
   note="Trusts: the reference model (about 250 lines, restricted to a line language whose semantics the statement fixes); Vfs semantics; hooks faithful. String literals appear only as rejected same-line neighbours; same-line neighbours are not generated under ignore_include.",
   tech="deterministic simulation: reference-model refinement check over a simulated file system with TOCTOU/open/read fault injection and an I/O-conversation monitor"),
+"C17": dict(cat="exploration", ref="§6 C17",
+  text="Seeded search over inputs x memo capacities (1..4096, unbounded, random) with the capacity knob owned by the simulator (instrumented fork of nom-packrat in the dependency seam); accept/reject and tree must equal the declared-capacity result. Divergences are shrunk and discriminated with a flag-aware memo key: the one listed known finding (key omits left-recursion flags) is reported as KNOWN-FINDING, anything that persists is a violation.",
+  note="Trusts: the nom-packrat fork is upstream code plus knobs; only whole-call FIFO capacities are explored; step budgets bound memo-starved parses (counted as budget_skipped); a divergence whose discriminator exhausts its budget is 'unattributed' and does not fail the check.",
+  tech="deterministic simulation: randomised tuning knob (memo capacity) with hit/miss/eviction probes, differential against the shipped configuration, flag-aware-key discriminator for the known finding"),
 "C19": dict(cat="exploration", ref="§6 C19",
   text="Seeded search over interleavings of 2-4 simulated caller threads (real OS threads parked and released one at a time at every grammar terminal, parser-state mutation and file operation; random, PCT and mutation-biased policies); every call must return what it returns when its thread's program runs alone. Failing schedules are frozen to an explicit switch list and minimised.",
   note="Trusts: hooks faithful; every write to thread-local parser state is preceded by a yield point; the scheduler serialises execution, so data-race UB itself (as opposed to its logical effect) is not observable.",
